@@ -18,6 +18,9 @@ ASSUMPTIONS = {"C14": [
     "map iteration order of RackAffinityGroupBalancer is explored by calling it several times per input (8 in small scope), "
     "not by enumerating every iteration order",
     "the rack bound is checked for named racks; members and leaders with the empty rack are counted separately (rackNoRack), not judged",
+    "GroupJoin.tla abstracts the balancer to 'some Balanced assignment of the partitions the leader saw'; its coordinator keeps the leader while it "
+    "is a member and completes a round when every known member rejoined (Kafka's rules, which the fake coordinator implements); the JoinGroup "
+    "response is an unobserved step of the trace specification",
     "leader path: partitions are numbered from 0; a subscribed topic may be missing from the cluster (error 3 in the metadata answer); the fake coordinator elects the "
     "scripted leader and lists the members in the scripted order (a real coordinator elects and lists as it likes); partitions are "
     "listed in ascending id order per topic",
@@ -190,8 +193,18 @@ def leader_path(tier, rng):
             sd = dict(zip(ids, subs))
             members = [{"id": m, "topics": sd[m], "rack": rng.choice(racks)} for m in order]
             pr = {t: [rng.choice(racks) for _ in range(c)] for t, c in counts.items()}
-            yield {"balancer": bal, "members": members, "partitions": plist(counts, "ordered", rng, racks=pr),
-                   "leader": leader, "scope": "leader"}
+            x = {"balancer": bal, "members": members, "partitions": plist(counts, "ordered", rng, racks=pr),
+                 "leader": leader, "scope": "leader"}
+            # a second generation for a third of the groups: one member joins late, or the leader leaves
+            others = [m for m in members if m["id"] != leader]
+            if others and n % 3 == 1:
+                late = others[-1]
+                x["members"] = [m for m in members if m["id"] != late["id"]]
+                x["late"] = [late]
+            elif others and n % 3 == 2:
+                x["leave"] = [leader]
+                x["leader2"] = others[0]["id"]
+            yield x
 
 
 def gen_inputs(tier, seed):
@@ -207,7 +220,7 @@ def gen_inputs(tier, seed):
 def key_of(clause, line):
     mem = ",".join("%s:%s:%s" % (m["id"], "+".join(m["topics"]), m["rack"]) for m in line["in"]["members"])
     par = ",".join("%s/%d@%s" % (p["topic"], p["id"], p["rack"]) for p in line["in"]["parts"])
-    via = (" path=leader leader=%s" % line.get("leader")) if line.get("path") == "leader" else ""
+    via = (" path=leader leader=%s%s" % (line.get("leader"), " generation=2" if line.get("phase") == 2 else "")) if line.get("path") == "leader" else ""
     return "%s bal=%s%s members=[%s] parts=[%s]" % (clause, line["bal"], via, mem, par)
 
 
@@ -282,6 +295,96 @@ def selftest(ctx):
     return n
 
 
+def model_check_join(ctx):
+    """GroupJoin.tla: the membership protocol around the balancer.  Every environment of two members / two topics / 0..2 partitions
+    (three members in the thorough tier), the two defect switches as vacuity guards, settling under fairness."""
+    jobs = [("MCGroupJoin.cfg", "hold"), ("MCGroupJoin_guard_own.cfg", "Complete"), ("MCGroupJoin_guard_drop.cfg", "Complete"),
+            ("MCGroupJoin_live.cfg", "hold")]
+    if ctx.tier == "thorough":
+        jobs.append(("MCGroupJoin3.cfg", "hold"))
+    ctx.specdir(ENGINE)
+    out = {}
+
+    def one(job):
+        cfg, want = job
+        r = ctx.tlc(ENGINE, "MCGroupJoin", cfg, workers=(8 if cfg == "MCGroupJoin3.cfg" else 2), timeout=1500,
+                    env={"JAVA_TOOL_OPTIONS": "-XX:ActiveProcessorCount=8 -Xmx6g" if cfg == "MCGroupJoin3.cfg" else JVM_OPTS},
+                    extra=["-noGenerateSpecTE"], tag="gj-" + cfg)
+        return cfg, want, r
+    with ThreadPoolExecutor(max_workers=5) as ex:
+        for cfg, want, r in ex.map(one, jobs):
+            if want == "hold":
+                if r["violated"] or r["error"] or r["timeout"]:
+                    raise Inconclusive("GroupJoin model check %s: %s" % (cfg, (r["violated"] or r["error"] or "timeout") + r["out"][-1200:]))
+            elif r["violated"] != want:
+                raise Inconclusive("vacuity guard %s: expected invariant %s to be violated, got %s" % (cfg, want, r["violated"] or r["error"] or "no violation"))
+            out[cfg] = {"distinct": r["distinct"], "generated": r["generated"], "result": "holds" if want == "hold" else "rejected: " + want}
+    return out
+
+
+def validate_traces(ctx, tpath, byin):
+    """Trace validation of the leader-path runs against GroupJoin.tla (GroupJoinTrace.tla), in chunks of runs.  A rejected run is a
+    divergence note; an invariant of GroupJoin that is false in a state of a validated behaviour is a violation."""
+    evs = read_ndjson(tpath) if os.path.exists(tpath) else []
+    runs = []
+    for e in evs:
+        if e["ev"] == "cfg":
+            runs.append([])
+        runs[-1].append(e)
+    chunks = [runs[i:i + 24] for i in range(0, len(runs), 24)]
+    res = {"runs": len(runs), "events": len(evs), "accepted_runs": 0, "states": 0, "diverged": [], "violations": []}
+
+    def one(job):
+        k, chunk = job
+        acc, states, div, vio = 0, 0, [], []
+        todo = list(chunk)
+        rounds = 0
+        while todo and rounds < 6:
+            rounds += 1
+            f = os.path.join(ctx.work, "gj-trace-%03d-%d.ndjson" % (k, rounds))
+            write_ndjson(f, [e for r in todo for e in r])
+            r = ctx.tlc(ENGINE, "GroupJoinTrace", "GroupJoinTrace.cfg", workers=1, timeout=300,
+                        env={"GJTRACE": f, "JAVA_TOOL_OPTIONS": JVM_OPTS}, extra=["-noGenerateSpecTE"], tag="gjt-%03d-%d" % (k, rounds))
+            states += r["distinct"]
+            line = None
+            if r["violated"]:
+                m = re.findall(r"/\\ l = (\d+)", r["out"])
+                line = int(m[-1]) if m else None
+            elif r["postcondition_failed"] or "DIVERGED_AT_LINE" in r["out"]:
+                m = re.search(r'"DIVERGED_AT_LINE",\s*(\d+)', r["out"])
+                line = int(m.group(1)) if m else None
+            elif r["error"] or r["timeout"]:
+                raise Inconclusive("GroupJoinTrace run failed: " + (r["error"] or "timeout") + r["out"][-1200:])
+            else:
+                acc += len(todo)
+                break
+            if line is None:
+                raise Inconclusive("GroupJoinTrace: rejected without a line: " + r["out"][-1500:])
+            # the run that contains the line
+            pos, idx = 0, None
+            for i, rr in enumerate(todo):
+                if pos < line <= pos + len(rr) or (i == len(todo) - 1):
+                    idx = i
+                    break
+                pos += len(rr)
+            bad = todo[idx]
+            acc += idx
+            ev = bad[min(max(line - pos - 1, 0), len(bad) - 1)]
+            if r["violated"]:
+                vio.append((r["violated"], bad, ev, r["out"][-4000:]))
+            else:
+                div.append((bad[0].get("n"), ev))
+            todo = todo[idx + 1:]
+        return acc, states, div, vio
+    with ThreadPoolExecutor(max_workers=8) as ex:
+        for acc, states, div, vio in ex.map(one, list(enumerate(chunks))):
+            res["accepted_runs"] += acc
+            res["states"] += states
+            res["diverged"] += div
+            res["violations"] += vio
+    return res
+
+
 def compact(l):
     out = {}
     for e in l["out"]:
@@ -291,6 +394,13 @@ def compact(l):
                                   for m in l["in"]["members"]],
             "partitions_as_listed": ["%s/%d%s" % (p["topic"], p["id"], ("@" + p["rack"]) if l["bal"] == "rack" else "") for p in l["in"]["parts"]],
             "output_of_AssignGroups": out, "calls_with_this_output": l["reps"]}
+
+
+def _guarded(f, ctx):
+    try:
+        return {"ok": f(ctx)}
+    except Inconclusive as e:
+        return {"err": e}
 
 
 def run(ctx):
@@ -304,7 +414,11 @@ def run(ctx):
     write_ndjson(ip, [{k: v for k, v in x.items() if k != "scope"} for x in inputs])
     ctx.log("generated %d inputs in %.1fs" % (len(inputs), time.time() - t0))
     reps = 8
-    p = ctx.run_vh(["groupbal", "-in", ip, "-out", op, "-reps", str(reps)], timeout=900)
+    tp = os.path.join(ctx.work, "gb-leader-trace.ndjson")
+    mcj = {}
+    mc_thread = threading.Thread(target=lambda: mcj.update(_guarded(model_check_join, ctx)))
+    mc_thread.start()
+    p = ctx.run_vh(["groupbal", "-in", ip, "-out", op, "-reps", str(reps), "-trace", tp], timeout=900)
     if p.returncode != 0:
         raise Inconclusive("vh groupbal failed: " + (p.stderr or p.stdout)[-2000:])
     try:
@@ -386,6 +500,26 @@ def run(ctx):
     if unjudged and not viols:
         raise Inconclusive("%d lines were not judged" % unjudged)
 
+    # the leader-path runs as behaviours of GroupJoin.tla
+    tv = validate_traces(ctx, tp, byin)
+    for n, ev in tv["diverged"][:10]:
+        print("DIVERGENCE property=%s first=%s" % (ctx.prop, json.dumps(ev, separators=(",", ":"))[:300]), flush=True)
+        ctx.notes.append("leader-path run of input %s left GroupJoin.tla at event %s" % (n, json.dumps(ev, separators=(",", ":"))[:300]))
+    for inv, run_events, ev, out in tv["violations"][:MAX_REPORTED]:
+        n = run_events[0].get("n")
+        inp = {k: v for k, v in byin[n].items() if k != "scope"} if n in byin else {}
+        rep = ctx.save_replay("GroupJoin-%s-n%s" % (inv, n), [
+            ("input.ndjson", json.dumps(inp, separators=(",", ":")) + "\n"),
+            ("trace.ndjson", "".join(json.dumps(e, separators=(",", ":")) + "\n" for e in run_events)),
+            ("tlc.txt", out),
+            ("README.txt", "vh groupbal -in input.ndjson -out lines.ndjson -trace trace.ndjson; GJTRACE=trace.ndjson tlc -config GroupJoinTrace.cfg GroupJoinTrace.tla\n"
+                           "invariant %s of GroupJoin.tla is false in a state of the recorded run\n" % inv)])
+        ctx.violation("invariant %s of GroupJoin.tla is false on a recorded run of real ConsumerGroups (input %s, at event %s)" % (
+            inv, n, json.dumps(ev, separators=(",", ":"))[:300]), rep, key="C14_Protocol_%s bal=%s n=%s" % (inv, run_events[0].get("bal"), n))
+    mc_thread.join()
+    if "err" in mcj:
+        raise mcj["err"]
+
     # coverage, all measured
     per_bal = {}
     per_scope = {}
@@ -399,7 +533,7 @@ def run(ctx):
     for l in lines:
         lines_per_bal[l["bal"]] = lines_per_bal.get(l["bal"], 0) + 1
         seen_n[l["n"]] = seen_n.get(l["n"], 0) + 1
-    multi = sum(1 for v in seen_n.values() if v > 1)
+    multi = sum(1 for n, v in seen_n.items() if v > 1 and byin[n]["scope"] != "leader")
     # clause evaluations = lines TLC went through, per clause that applies to the line's balancer
     judged_per_bal = {"range": stats.get("rangeLines", 0), "roundrobin": stats.get("rrLines", 0), "rack": stats.get("rackLines", 0)}
     for b, cl in APPLIES.items():
@@ -439,6 +573,10 @@ def run(ctx):
         "lines_judged": len(lines) - unjudged, "lines_per_balancer": lines_per_bal,
         "leader_path_groups_formed": len(lead), "leader_path_groups_whose_leader_lacks_a_topic_of_another_member": len(lead_partial),
         "leader_path_members": sum(len(l["in"]["members"]) for l in lead),
+        "leader_path_second_generations": sum(1 for l in lead if l.get("phase") == 2),
+        "leader_path_trace_validation": {"runs": tv["runs"], "events": tv["events"], "runs_accepted_by_GroupJoin": tv["accepted_runs"],
+                                         "states": tv["states"], "divergence_count": len(tv["diverged"])},
+        "group_join_model_check": mcj.get("ok"),
         "rack_inputs_with_several_distinct_outputs": multi,
         "panics": sum(1 for l in lines if l["panic"]),
         "largest_input": {"members": max(len(l["in"]["members"]) for l in lines), "partitions": max(len(l["in"]["parts"]) for l in lines)},
